@@ -16,6 +16,8 @@ open GeoVerif GeoVerif.Conic
 theorem one_real : (@OfNat.ofNat ℝ 1 RealLike.Lits.instLit) = (1 : ℝ) := by rw [lit_real]; try norm_num
 theorem zero_real : (@OfNat.ofNat ℝ 0 RealLike.Lits.instLit) = (0 : ℝ) := by rw [lit_real]; try norm_num
 theorem two_real : (@OfNat.ofNat ℝ 2 RealLike.Lits.instLit) = (2 : ℝ) := by rw [lit_real]; try norm_num
+theorem three_real : (@OfNat.ofNat ℝ 3 RealLike.Lits.instLit) = (3 : ℝ) := by rw [lit_real]; try norm_num
+theorem four_real : (@OfNat.ofNat ℝ 4 RealLike.Lits.instLit) = (4 : ℝ) := by rw [lit_real]; try norm_num
 
 @[simp] theorem exp_real (x : ℝ) : RealLike.exp x = Real.exp x := rfl
 @[simp] theorem log_real (x : ℝ) : RealLike.log x = Real.log x := rfl
